@@ -424,8 +424,22 @@ def sym_kind(c, case, kind, sn, names, srcnames, res):
     # entries: real entry (dA) against a model entry a + b (j w) + c / (j w) (degrees 2 + 1): cross degree <= dA + 3;
     # solutions: ac solution against the s-domain solution at j w, both of degree <= dx: cross degree <= 2 dx
     bound = max(dA + 3, 2 * dx)
-    npts = min(len(pts), bound + 1)
-    pts = pts[:npts]
+    # sample points at which every entry and every solution component is finite (no pole of the system at the point)
+    good = []
+    for p in pts:
+        try:
+            vals = [x[i].subs(kind, p) for i in range(x.shape[0])] + [A[i, k].subs(kind, p) for i in range(A.shape[0]) for k in range(A.shape[1])]
+            if all(v.is_finite for v in vals):
+                good.append(p)
+        except Exception:
+            pass
+        if len(good) > bound:
+            break
+    pts = good
+    npts = len(pts)
+    if not npts:
+        res['ac'][name] = {'error': 'no admissible sample point'}
+        return
     acsub = MS([{kind: p} for p in pts])
     ssub = MS([{ssym: sp.I * p} for p in pts])
     out = {'sub': dump_sub(sn, acsub)}
